@@ -33,4 +33,56 @@ macro "fix_unfold" : tactic => `(tactic|
 /-- + − and the saturating + − : as for Int64 / UInt64 -/
 macro "fix_arith" : tactic => `(tactic| (fix_unfold <;> num_finish))
 
+/-! ### `roundDiv` (multiplyDivide) -/
+
+/-- the facts every statement about `roundDiv` needs: `n = d·q + rem`, `|rem| < |d|`, `rem` has the sign of
+    `n`, and the result is `q` or (only when `rem ≠ 0`) its neighbour away from zero -/
+theorem roundDiv_cases (r : Rounding) (n d : Int) (hd : d ≠ 0) :
+    let q := Int.tdiv n d; let rem := Int.tmod n d
+    q * d + rem = n ∧ rem.natAbs < d.natAbs ∧ (0 ≤ n → 0 ≤ rem) ∧ (n ≤ 0 → rem ≤ 0) ∧
+    (roundDiv r n d = q ∨
+      (rem ≠ 0 ∧ ((0 < n ∧ 0 < d) ∨ (n < 0 ∧ d < 0)) ∧ roundDiv r n d = q + 1) ∨
+      (rem ≠ 0 ∧ ((0 < n ∧ d < 0) ∨ (n < 0 ∧ 0 < d)) ∧ roundDiv r n d = q - 1)) := by
+  intro q rem
+  have e : q * d + rem = n := by
+    have := Int.mul_tdiv_add_tmod n d; rw [Int.mul_comm] at this; exact this
+  have hl : rem.natAbs < d.natAbs := by
+    have h1 : rem.natAbs = n.natAbs % d.natAbs := Int.natAbs_tmod n d
+    have h2 : n.natAbs % d.natAbs < d.natAbs := Nat.mod_lt _ (by omega)
+    omega
+  have f := tmod_facts n d
+  refine ⟨e, hl, fun h => (f.1 h).1, fun h => (f.2 h).2, ?_⟩
+  by_cases hr : rem = 0
+  · left; simp only [roundDiv]; rw [if_pos hr]
+  · have hn : n ≠ 0 := by
+      intro h0; apply hr; show Int.tmod n d = 0; rw [h0]; exact Int.zero_tmod d
+    have away : Int.tdiv n d + Int.sign n * Int.sign d = q + 1 ∧ ((0 < n ∧ 0 < d) ∨ (n < 0 ∧ d < 0)) ∨
+                Int.tdiv n d + Int.sign n * Int.sign d = q - 1 ∧ ((0 < n ∧ d < 0) ∨ (n < 0 ∧ 0 < d)) := by
+      rcases Int.lt_or_gt_of_ne hn with h1 | h1 <;> rcases Int.lt_or_gt_of_ne hd with h2 | h2
+      · left; rw [Int.sign_eq_neg_one_of_neg h1, Int.sign_eq_neg_one_of_neg h2]; exact ⟨by show q + _ = _; omega, Or.inr ⟨h1, h2⟩⟩
+      · right; rw [Int.sign_eq_neg_one_of_neg h1, Int.sign_eq_one_of_pos h2]; exact ⟨by show q + _ = _; omega, Or.inr ⟨h1, h2⟩⟩
+      · right; rw [Int.sign_eq_one_of_pos h1, Int.sign_eq_neg_one_of_neg h2]; exact ⟨by show q + _ = _; omega, Or.inl ⟨h1, h2⟩⟩
+      · left; rw [Int.sign_eq_one_of_pos h1, Int.sign_eq_one_of_pos h2]; exact ⟨by show q + _ = _; omega, Or.inl ⟨h1, h2⟩⟩
+    have hq : roundDiv r n d = q ∨ roundDiv r n d = Int.tdiv n d + Int.sign n * Int.sign d := by
+      simp only [roundDiv]; rw [if_neg hr]
+      cases r <;> simp only <;> (repeat' split) <;> first | exact Or.inl rfl | exact Or.inr rfl | exact Or.inr trivial
+    rcases hq with hq | hq
+    · exact Or.inl hq
+    · rcases away with ⟨a1, a2⟩ | ⟨a1, a2⟩
+      · exact Or.inr (Or.inl ⟨hr, a2, by rw [hq, a1]⟩)
+      · exact Or.inr (Or.inr ⟨hr, a2, by rw [hq, a1]⟩)
+
+/-- the neighbour away from zero, multiplied back -/
+theorem away_mul (n d : Int) (hd : d ≠ 0) (hr : Int.tmod n d ≠ 0) :
+    (0 < n ∧ (Int.tdiv n d + Int.sign n * Int.sign d) * d = Int.tdiv n d * d + d.natAbs ∧
+      (Int.sign n * Int.sign d = 1 ∨ Int.sign n * Int.sign d = -1)) ∨
+    (n < 0 ∧ (Int.tdiv n d + Int.sign n * Int.sign d) * d = Int.tdiv n d * d - d.natAbs ∧
+      (Int.sign n * Int.sign d = 1 ∨ Int.sign n * Int.sign d = -1)) := by
+  have hn : n ≠ 0 := by intro h0; apply hr; rw [h0]; exact Int.zero_tmod d
+  rcases Int.lt_or_gt_of_ne hn with h1 | h1 <;> rcases Int.lt_or_gt_of_ne hd with h2 | h2
+  · right; rw [Int.sign_eq_neg_one_of_neg h1, Int.sign_eq_neg_one_of_neg h2, Int.add_mul]; exact ⟨h1, by omega, by omega⟩
+  · right; rw [Int.sign_eq_neg_one_of_neg h1, Int.sign_eq_one_of_pos h2, Int.add_mul]; exact ⟨h1, by omega, by omega⟩
+  · left; rw [Int.sign_eq_one_of_pos h1, Int.sign_eq_neg_one_of_neg h2, Int.add_mul]; exact ⟨h1, by omega, by omega⟩
+  · left; rw [Int.sign_eq_one_of_pos h1, Int.sign_eq_one_of_pos h2, Int.add_mul]; exact ⟨h1, by omega, by omega⟩
+
 end Verif.Proofs.FixArith
